@@ -339,6 +339,10 @@ func permsFor(seed int64) string {
 	return strings.Join(parts, ";")
 }
 
+// VERIF_NO_ORACLE=1 (self-test of the spec-backed op only): the harness does not evaluate the history /
+// rotation oracle itself, so that a breach shows up as a disagreement of `offer` with the specification's answer
+var noOracle = os.Getenv("VERIF_NO_ORACLE") != ""
+
 func (w *world) exec(op string) (res string) {
 	defer func() {
 		if r := recover(); r != nil {
@@ -561,7 +565,7 @@ func (w *world) exec(op string) (res string) {
 			}
 		}
 		// ... and on a full drain: only up hosts, every up host, no host twice
-		if limit >= 1000 {
+		if limit >= 1000 && !noOracle {
 			if v := w.oracle(got, len(head), dupReps, headAny); v != "" {
 				return "crash:property violated on the real code: " + v + " offered=" + w.showIDs(got)
 			}
@@ -1262,6 +1266,20 @@ func main() {
 	r := vh.NewRng(vh.EnvSeed())
 	out := vh.NewOut(path)
 	g := &gen{r: r, out: out, w: &world{}}
+	// the two families with an observation right after every mutation come first, so that the first
+	// disagreements of a run are on observed sequences (spec-backed) and not on list snapshots
+	if tier == "thorough" {
+		g.histories(5, 400)
+	} else {
+		g.histories(3, 40)
+	}
+	nb := 150
+	if tier == "thorough" {
+		nb = 1500
+	}
+	for i := 0; i < nb; i++ {
+		g.boundaryScenario(i%4 == 3)
+	}
 	scen := 400
 	if tier == "thorough" {
 		scen = 400 * 30
@@ -1275,18 +1293,6 @@ func main() {
 		default:
 			g.scenario(8, 20+r.Intn(40))
 		}
-	}
-	nb := 150
-	if tier == "thorough" {
-		nb = 1500
-	}
-	for i := 0; i < nb; i++ {
-		g.boundaryScenario(i%4 == 3)
-	}
-	if tier == "thorough" {
-		g.histories(5, 400)
-	} else {
-		g.histories(3, 40)
 	}
 	extra := map[string]interface{}{}
 	if tier == "thorough" {
